@@ -515,6 +515,30 @@ Definition t_element (st : store) (sp : tspace) (inp : operand) : res (operand *
       else let (st', t) := alloc st (cast_arr (ts_dt sp) (rd st id)) in Ok (OpTens sp t, st')
   | _ => Err EUnmodelled
   end.
+(* The same with the memory LAYOUT of the array, its writeable flag and the
+   order= argument made explicit (measured on the code and pinned by the `wrap`
+   case set): NumpyTensorSpace.element / DiscretizedSpace.element(arr, order)
+   call np.array(arr, copy=False, dtype=space.dtype, ndmin=ndim, order=order) and
+   copy read-only arrays.  So the buffer is SHARED iff the dtype matches, the
+   array is writeable and (order is None -- then ANY layout is accepted:
+   C-contiguous, Fortran-contiguous, transposed, strided, negative strides --
+   or the array already has the requested contiguity). *)
+Inductive layout := LayC | LayF | LayCF | LayStrided.   (* C-, F-contiguous, both, neither *)
+Inductive order := OrdC | OrdF.
+Definition layout_ok (o : option order) (l : layout) : bool :=
+  match o, l with
+  | None, _ => true
+  | Some OrdC, (LayC | LayCF) => true
+  | Some OrdF, (LayF | LayCF) => true
+  | _, _ => false
+  end.
+Definition t_element_lay (st : store) (sp : tspace) (id : nat) (writeable : bool) (l : layout)
+           (o : option order) : res (operand * store) :=
+  if negb (shape_eqb (a_shape (rd st id)) (ts_shape sp)) then Err EValue
+  else if dt_eqb (a_dt (rd st id)) (ts_dt sp) && writeable && layout_ok o l
+  then Ok (OpTens sp id, st)
+  else let (st', t) := alloc st (cast_arr (ts_dt sp) (rd st id)) in Ok (OpTens sp t, st').
+
 (* x.asarray(): the data buffer itself *)
 Definition asarray (o : operand) : option nat := op_buf o.
 
